@@ -178,9 +178,16 @@ example : padPow2 [[1], [2], [3], [4], [5]] = [[1], [2], [3], [4], [5], [5], [5]
 example : blockPayloadRaw (fun b => 7 :: b) [9] 258 [] = some [7, 9, 0, 0, 1, 2, 7] := by
   rw [block_payload_hash _ _ _ _ (by omega)]; decide
 
-/-! known answers, evaluated by the kernel with the Lean BLAKE2b-256 and SHA-256: RFC 7693 appendix A is for
-BLAKE2b-512, so the digest-size-32 vectors are the recorded chain data of tests/unit_tests/test_crypto/test_hashes.py -/
+/-! known answers, evaluated by the kernel with the Lean BLAKE2b and SHA-256: the published RFC 7693 vector (digest
+size 64), BLAKE2b-256 of the empty string, and recorded chain data of tests/unit_tests/test_crypto/test_hashes.py -/
 
+-- RFC 7693 appendix A: BLAKE2b-512("abc") = ba80a53f 981c4d0d 6a2797b6 9f12f6e9 … d4009923 (same compression function, digest size 64)
+set_option maxRecDepth 4000 in
+example : Core.Hash.blake2b 64 [97, 98, 99] =
+    [0xba, 0x80, 0xa5, 0x3f, 0x98, 0x1c, 0x4d, 0x0d, 0x6a, 0x27, 0x97, 0xb6, 0x9f, 0x12, 0xf6, 0xe9,
+    0x4c, 0x21, 0x2f, 0x14, 0x68, 0x5a, 0xc4, 0xb7, 0x4b, 0x12, 0xbb, 0x6f, 0xdb, 0xff, 0xa2, 0xd1,
+    0x7d, 0x87, 0xc5, 0x39, 0x2a, 0xab, 0x79, 0x2d, 0xc2, 0x52, 0xd5, 0xde, 0x45, 0x33, 0xcc, 0x95,
+    0x18, 0xd3, 0x8a, 0xa8, 0xdb, 0xf1, 0x92, 0x5a, 0xb9, 0x23, 0x86, 0xed, 0xd4, 0x00, 0x99, 0x23] := by decide +kernel
 -- BLAKE2b-256 of the empty string: 0e5751c026e543b2e8ab2eb06099daa1d1e5df47778f7787faab45cdf12fe3a8
 set_option maxRecDepth 4000 in
 example : RealHash.blake [] = [0x0e, 0x57, 0x51, 0xc0, 0x26, 0xe5, 0x43, 0xb2, 0xe8, 0xab, 0x2e, 0xb0, 0x60, 0x99, 0xda, 0xa1,
